@@ -326,9 +326,20 @@ fn main() {
                 continue;
             }
             let (kind, json, optable, scanner) = grammar_of_src(parts[0]);
-            let lang = load_lang(&mut cu, &json, scanner.as_deref(), OptLevel::default()).expect("language of the spec");
-            let terms = if kind == "zoo" { None } else { terminals(&lang) };
             let gid = format!("replay{i}");
+            let lang = match load_lang(&mut cu, &json, scanner.as_deref(), OptLevel::default()) {
+                Ok(l) => l,
+                Err(e) => {
+                    // an operator table the generator refuses is a case of its own
+                    if let Some(t) = &optable {
+                        em.line(&format!("rejected {gid} {}", t.encode()));
+                        em.line(&format!("src {}", parts[0]));
+                        continue;
+                    }
+                    panic!("language of the spec: {e}");
+                }
+            };
+            let terms = if kind == "zoo" { None } else { terminals(&lang) };
             let (text, toks) = parse_string_spec(parts[1], terms.as_deref());
             let l = terms.as_ref().map(|t| exh_len(t.len(), 1500)).unwrap_or(0).max(toks.as_ref().map(|t| t.len().min(8)).unwrap_or(0));
             em.grammar_header(&gid, &kind, parts[0], &lang, terms.as_deref(), optable.as_ref(), l);
